@@ -31,11 +31,14 @@ PROPS = {
     },
     "C11": {
         "props_file": "Props/C11.v",
-        "run_files": ["Run/CaseC11.v"],
+        "run_files": ["Run/CaseC11.v", "Run/CaseC12.v"],
         "imports": ["Lib.Bytes", "Run.CaseC11"],
         "case_type": "c11case",
         "checkers": {"H": "check_c11", "D": "check_c11"},
-        "harness": [{"bin": "hash"}],
+        "harness": [{"bin": "hash"},
+                    # the hash as it is USED towards the session service: the real MojangAdapter's request
+                    {"bin": "mojang", "crate": "harness-net", "case_type": "c12case", "imports": ["Lib.Bytes", "Run.CaseC12"],
+                     "checkers": {"REQ": "check_c12"}, "shard": 50}],
         "quick_scale": 1, "thorough_scale": 12, "search_factor": 6,
         "ties": ["Crypto/McHash.v: hand model of num-bigint 0.4.6 from_signed_bytes_be / to_str_radix(16) and of "
                  "passage-adapters/src/authentication/mod.rs minecraft_hash, tied by the hash binary (families H, D)"],
